@@ -10,7 +10,11 @@ CLAIMS = {
         text="Every scalar update rule of the trust-region state (radius setter, update_radius, enhance_resolution, the "
              "short-step shrink) is executed from the real source on symbolic values over the documented constant domains; "
              "all paths are enumerated and the object invariant radius_final <= resolution <= radius, strict decrease and the "
-             "contraction lemma of the resolution are discharged by z3 for all inputs.",
+             "contraction lemma of the resolution are discharged by z3 for all inputs. Also proved: Interpolation.__init__ keeps "
+             "radius_final <= radius_init when fitting the radii to the box; get_index_to_remove never selects the centre of the trust "
+             "region when a new point is given (and only with distance 0 otherwise), and minimize's geometry step replaces the point chosen "
+             "in the same iteration for the current best index; the completed constants satisfy the domains/orders these proofs assume "
+             "(C19.set_default_constants.post.valid counts for C18).",
         design_ref="5 C18",
         note="REAL float model (machine arithmetic treated as mathematical) for products/sqrt; constants assumed to satisfy "
              "the postcondition of _set_default_constants (proved under C19); callee = contract; termination not verified.",
@@ -23,7 +27,9 @@ CLAIMS["C19"] = dict(
          "subsets of supplied keys at once, every real value): ValueError is raised iff a supplied value leaves its documented "
          "domain or a supplied pair violates its documented order; otherwise every key is present, typed, in its domain, all "
          "documented relations hold, supplied values are kept and unsupplied ones equal the documented default / derivation; an "
-         "unknown name yields exactly one RuntimeWarning. ~5000 paths, ~40000 obligations, all discharged.",
+         "unknown name yields exactly one RuntimeWarning. minimize validates and completes options and constants before any result is "
+         "built or the framework constructed, on every kind of problem (inconsistent bounds, all variables fixed, ordinary), hands the "
+         "caller's keywords to the constants' validator and the completed objects on; every basic option reaches Problem under its name.",
     design_ref="5 C19",
     note="Supplied numeric values range over the reals (NaN outside the quantifier, N6); REAL float model; the spec tables are "
          "transcribed from the docstring of minimize (contracts/spec_plain.py, contracts/c19.py); the early history_size/"
@@ -32,14 +38,15 @@ CLAIMS["C19"] = dict(
 )
 CLAIMS["C03"] = dict(
     category="proof",
-    text="The real Problem.__call__ (filter insertion test, removal loop cut at the invariant ALIGN/SUBSET/COVER, FIFO eviction) and the "
+    text="The real Problem.__call__ (filter insertion test, removal loop cut at the invariant ALIGN/SUBSET/COVER/NOMIX, FIFO eviction) and the "
          "real Problem.best_eval are executed on filter lists of symbolic length with arbitrary float contents (NaN, +-inf, ties): the "
          "filter invariants are preserved by every call, and best_eval returns the entry prescribed by the documented six-tier rule "
          "(feasible first, least objective, ties by violation then recency; least merit otherwise), written from the statement.",
     design_ref="5 C03",
     note="ORDER float model (comparisons exact, merit arithmetic uninterpreted with IEEE monotonicity); callees of Problem.__call__ are "
          "contract stubs; COVER is claimed for the unbounded filter (filter_size > number of evaluations), the finite-filter clause "
-         "is the selection rule over the retained entries.",
+         "is the selection rule over the retained entries. NOMIX (fully defined and NaN entries never coexist) is an optional invariant: "
+         "proved for Problem.__call__, required only if an obligation of best_eval holds only with it (not the case on this tree).",
     technique="deductive: symbolic lists + loop invariant + quantified VCs, z3 (E-matching / MBQI) per obligation",
 )
 CLAIMS["C05"] = dict(
@@ -113,9 +120,11 @@ CLAIMS["C01"] = dict(
          "infinite bounds allowed, get_trust_region_step and get_second_order_correction_step shift the bounds by exactly the point the "
          "returned step is added to and meet the subsolvers' preconditions, so the trial point is inside the bounds by construction.",
     design_ref="5 C01",
-    note="Subsolver contracts (step inside the box it is given) are assumed at the call sites and only checked by the bounded C15 units; "
-         "geometry step and Interpolation.__init__ placement are covered only by the bounded end-to-end monitor (e2e.scenarios) and the "
-         "bounded Problem.__init__ stand-in; REAL model for the step arithmetic.",
+    note="Interpolation.__init__ is proved for every n and npt (placement-loop invariant: every initial point inside the bounds, radii "
+         "fitted to the box). Subsolver contracts (step inside the box it is given) are assumed at the call sites; they are proved as "
+         "loop invariants for constrained_tangential_byrd_omojokun (tcgbox unit, NaN-freeness excepted) and otherwise checked by the "
+         "bounded subsolver units, whose step_within_bounds clauses count for C01 (a failing case is replayed natively); the geometry "
+         "step is covered by the bounded units and the end-to-end monitor; REAL model for the step arithmetic.",
     technique="deductive: Mode A vectors (closure-composed, one fresh index), ORDER/REAL float models, z3",
 )
 CLAIMS["C02"] = dict(
@@ -203,11 +212,14 @@ CLAIMS["C15"] = dict(
     category="other",
     text="Mixed. Proved: _alpha_tr returns a non-negative step length reaching the trust-region boundary (NRA); cauchy_geometry returns one "
          "of its two candidates computed on the clamped bounds; _cauchy_geom's step is a clip result inside the clamped bounds; the call "
-         "sites in the framework meet the subsolvers' preconditions. Bounded: the five subsolvers are run on 3000 (30000 thorough) seeded "
+         "sites in the framework meet the subsolvers' preconditions; for constrained_tangential_byrd_omojokun the bound clause is a loop "
+         "invariant of both real loops (every n, every number of linear constraints, every iteration; frame computed from the loop body, "
+         "matrices opaque): the returned step is NaN or inside [min(xl,0), max(xu,0)]. Bounded: the five subsolvers are run on 3000 (30000 thorough) seeded "
          "cases (floats over 12 decades and small-integer instances, all listed degeneracies) against bounds/radius/linear-inequality/"
          "null-space clauses as run-time contracts.",
     design_ref="5 C15",
-    note="The truncated-CG loops (QR projections, rotations) are not proved; bounded detection is probabilistic.",
+    note="Radius, linear-inequality and null-space clauses of the truncated-CG loops, NaN-freeness of the steps, and the bound clause of "
+         "tangential_byrd_omojokun (rotation without clip) and normal_byrd_omojokun are not proved: bounded only, detection is probabilistic.",
     technique="deductive units for the small pieces + bounded run-time contracts for the numerical loops",
 )
 CLAIMS["C16"] = dict(
